@@ -900,6 +900,7 @@ def plan(prop, tier, seed, known):
         for i in range(5):
             jobs.append(crash_job("crashscript%d" % i, i, "script", 1, 0, av, disk=3200,
                                   extra=["-loss", "2" if q else "6", "-cont", "2", "-nested", "1" if q else "4", "-unst", "1"]))
+        jobs.append(crash_job("crashscript5", 5, "script", 1, 0, av, disk=3200, extra=["-loss", "1", "-cont", "0", "-nested", "0", "-stride", "5" if q else "2", "-unst", "1"]))
         for i in range(2 if q else 12):
             jobs.append(crash_job("crashbig%d" % i, seed * 100 + 50 + i, "crashbig", 1, 12 if q else 20, av, disk=3400,
                                   extra=["-loss", "1", "-cont", "2", "-nested", "1", "-stride", "3" if q else "1"]))
